@@ -146,9 +146,29 @@ def run(ctx):
 
     for fname, c in load_corpus("C03"):
         one(c["text"], "corpus:" + fname)
+    def sibling(doc):
+        """the same file with its ChargeConj statements dropped, turned round, or naming another partner: read right after the
+        original in the same process, it must be answered from its own statements alone"""
+        out = []
+        for st in doc:
+            if st[0] == "chargeconj":
+                r = rng.random()
+                if r < 0.35:
+                    continue
+                if r < 0.6:
+                    st = ["chargeconj", st[2], st[1]]
+                elif r < 0.85:
+                    st = ["chargeconj", st[1], st[2] + "x"] if gen.safe_label(st[2] + "x") else st
+            out.append(st)
+        return out
+
     for i in range(n_docs):
         doc = gen_cc_doc(rng, names_all)
         one(render_doc(doc), "generated", doc)
+        if any(st[0] == "chargeconj" for st in doc) and rng.random() < 0.5:
+            d2 = sibling(doc)
+            one(render_doc(d2), "generated:sibling", d2)
+            res.count("siblings")
     # every EvtGen name as a daughter of a conjugated table (thorough: all; quick: a slice)
     sweep = [n for n in names_all if gen.safe_label(n)]
     if tier == "quick":
